@@ -1047,7 +1047,7 @@ CIGAR_CH = "MIDNSHP=X"
 
 
 def write_bam(path, world, reads, build="hg19", sort=True, index=True, mapq=60,
-              baseq=40, fmt="bam", extra_records=None, header_extra=None, lowq=None, dup=1):
+              baseq=40, fmt="bam", extra_records=None, header_extra=None, lowq=None, dup=1, omit_main=False):
     """`lowq` = {"seed", "frac", "kind": "base" | "mapq" | "both", "shape": "random" | "front" | "back"}:
     a fraction of the records gets a mapping quality below aldy's threshold or scattered base qualities of 5
     (unevenly along the file order with shape front / back).  `dup` = k: every read is written k times
@@ -1078,6 +1078,14 @@ def write_bam(path, world, reads, build="hg19", sort=True, index=True, mapq=60,
             recs.append((ref_start + shift, ops, seq, name, 0, mapq, baseq))
     if extra_records:
         recs += extra_records
+    if omit_main:
+        # a header without the genes' contig (and without its reads): what is left are the records of the
+        # other contigs, renumbered
+        sq = sq[1:]
+        header = pysam.AlignmentHeader.from_dict(
+            {"HD": {"VN": "1.6", "SO": "coordinate" if sort else "unsorted"}, "SQ": sq}
+        )
+        recs = [r[:7] + (r[7] - 1,) for r in recs if len(r) > 7 and r[7] >= 1]
     if dup > 1:
         recs = [r[:3] + (f"{r[3]}x{k}",) + r[4:] for r in recs for k in range(dup)]
     if sort:
